@@ -28,6 +28,55 @@ type Inst struct {
 	c    *verifhook.Container
 	ds   *frontend.DataService
 	wf   *executor.WALFileType
+	// variable-length rows written so far per bucket key (oracle of the C09 predicate)
+	vwritten map[string][]rowIn
+}
+
+// c09ok is the property C09 asks of an unrestricted query on a variable-length bucket: rows in
+// non-decreasing time order, and a bijection onto the written rows with equal values, same
+// interval, returned time <= written time and early by less than one resolution step
+// (tf/2^32, +1 ns of rounding).  Mirrors Mkts.VStore.c09ok.
+func c09ok(tfNs int64, written []rowIn, out []rowIn) bool {
+	ns := func(r rowIn) int64 { return r.sec*1e9 + r.nanos }
+	for i := 1; i < len(out); i++ {
+		if ns(out[i-1]) > ns(out[i]) {
+			return false
+		}
+	}
+	w := append([]rowIn(nil), written...)
+	sort.SliceStable(w, func(i, j int) bool { return ns(w[i]) < ns(w[j]) })
+	used := make([]bool, len(w))
+	tf := time.Duration(tfNs)
+	slot := func(t int64) (int, int64) {
+		tt := time.Unix(0, t).UTC()
+		return tt.Year(), mio.TimeToIndex(tt, tf)
+	}
+	for _, o := range out {
+		found := false
+		oy, oi := slot(ns(o))
+		for k, wr := range w {
+			if used[k] || string(wr.payload) != string(o.payload) {
+				continue
+			}
+			wy, wi := slot(ns(wr))
+			d := ns(wr) - ns(o)
+			// (w - o) * 2^32 < tf + 2 * 2^32, without overflow
+			if wy == oy && wi == oi && d >= 0 && float64(d) < float64(tfNs)/4294967296.0+2 {
+				used[k] = true
+				found = true
+				break
+			}
+		}
+		if !found {
+			return false
+		}
+	}
+	for _, u := range used {
+		if !u {
+			return false
+		}
+	}
+	return true
 }
 
 var instSeq int64
@@ -262,6 +311,34 @@ func renderCS(cs *mio.ColumnSeries) string {
 	return sb.String()
 }
 
+// csRows extracts (sec, nanos, payload) rows from a query result
+func csRows(cs *mio.ColumnSeries) []rowIn {
+	if cs == nil || cs.Len() == 0 {
+		return nil
+	}
+	n := cs.Len()
+	epoch := cs.GetEpoch()
+	nanos, _ := cs.GetColumn("Nanoseconds").([]int32)
+	var out []rowIn
+	for i := 0; i < n; i++ {
+		var p []byte
+		for _, nm := range cs.GetColumnNames() {
+			if nm == "Epoch" || nm == "Nanoseconds" {
+				continue
+			}
+			b := mio.CastToByteSlice(cs.GetColumn(nm))
+			sz := len(b) / n
+			p = append(p, b[i*sz:(i+1)*sz]...)
+		}
+		var nsv int64
+		if nanos != nil {
+			nsv = int64(nanos[i])
+		}
+		out = append(out, rowIn{epoch[i], nsv, p})
+	}
+	return out
+}
+
 func optI64(s string) *int64 {
 	if s == "-" || s == "" {
 		return nil
@@ -293,6 +370,12 @@ func (in *Inst) runStoreStep(step string) string {
 		var resp frontend.MultiServerResponse
 		in.ds.Write(nil, &frontend.MultiWriteRequest{Requests: []frontend.WriteRequest{{Data: ds, IsVariableLength: isVar}}}, &resp)
 		if len(resp.Responses) == 0 {
+			if isVar {
+				if in.vwritten == nil {
+					in.vwritten = map[string][]rowIn{}
+				}
+				in.vwritten[f[1]] = append(in.vwritten[f[1]], parseRows(f[4])...)
+			}
 			return "W=ok"
 		}
 		return "W=" + errClass(resp.Responses[0].Error)
@@ -331,6 +414,16 @@ func (in *Inst) runStoreStep(step string) string {
 		var parts []string
 		for _, k := range keys {
 			if len(keys) == 1 {
+				unrestricted := f[2] == "-" && f[3] == "-" && f[4] == "-" && f[5] == "-" && f[6] == "-" && (len(f) <= 8 || f[8] == "-")
+				if w, isVar := in.vwritten[k]; isVar && unrestricted {
+					tfd, _ := mio.NewTimeBucketKey(k).GetTimeFrame()
+					v := ";V=bad"
+					if c09ok(int64(tfd.Duration), w, csRows(byKey[k])) {
+						v = ";V=ok"
+					}
+					parts = append(parts, renderCS(byKey[k])+v)
+					continue
+				}
 				parts = append(parts, renderCS(byKey[k]))
 			} else {
 				parts = append(parts, k+"~"+renderCS(byKey[k]))
